@@ -56,6 +56,12 @@ Definition apply_left (d : V * V) m (v : 'M[R]_(n,m)) : 'M[R]_(n,m) :=
 Lemma apply_den d m (v : 'M_(n,m)) : apply d v = den d *m v.
 Proof. by rewrite /apply /den mulmxBl mul1mx mulmxA. Qed.
 
+(* scaled form used by the harness for left vectors L'/c with integer L':
+   c * (v - R ((L'/c)^H v)) = (c - 1) v + apply (R, L') v *)
+Lemma apply_scaled d m (v : 'M_(n,m)) (c : R) :
+  (c - 1) *: v + apply d v = c *: v - d.1 *m (adjm d.2 *m v).
+Proof. by rewrite /apply scalerBl scale1r addrA subrK. Qed.
+
 Lemma den_adj d : adjm (den d) = 1%:M - d.2 *m adjm d.1.
 Proof. by rewrite /den adjm_sub adjm1 adjm_mul adjmK. Qed.
 
